@@ -61,6 +61,9 @@ def make_plan(seed: int, tier: str, opts: dict) -> dict:
             eps[j]["ending"] = "stop"
     if r.random() < 0.1:
         eps.insert(0, dict(eps_id=0, api="stop_only", nsteps=0, ending="stop", rtf=0, strategy={"name": "rr"}, sseed=1, fair_k=64))
+    for ep in eps:
+        if r.random() < 0.2:
+            ep["timeout"] = r.choice([30.0, 60.0])  # the optional timeout arguments must not change anything on a graph that makes progress
     plan = dict(spec=spec, seed=seed, episodes=eps, clock="wall" if wall else "sim",
                 line_rate=r.choice([0.0, 0.0025, 0.01, 0.04]) if tier == "thorough" else r.choice([0.0, 0.0, 0.01]))
     # pre-emption concentrated on the lines that touch the shared lifecycle fields (kernel.hot_lines)
